@@ -154,16 +154,30 @@ def generate(r):
             main.append(["recv", ch])
     join = r.random() < 0.85
     variants = [r.choice(["fn", "lambda", "method", "capture"]) for _ in scripts]
+    # some fibers are not launched by the main fiber up front but by another fiber in the middle of its script
+    # (the launching fiber is then the parent that a completing child wakes)
+    spawned = {}
+    if r.random() < 0.35:
+        for child in range(1, len(scripts)):
+            if r.random() < 0.5:
+                parent = r.randrange(-1, child)          # -1: the main fiber, later in its script
+                spawned[str(child)] = parent
+                owner = main if parent < 0 else scripts[parent]
+                owner.insert(r.randint(0, len(owner)), ["spawn", child])
     # in half of the networks the values are heap objects (strings built at run time) that are reachable only
     # through the channel buffer or the parked sender while in flight
-    return {"caps": caps, "scripts": scripts, "main": main, "join": join, "variants": variants, "heap": r.random() < 0.5}
+    return {"caps": caps, "scripts": scripts, "main": main, "join": join, "variants": variants, "heap": r.random() < 0.5,
+            "spawned": spawned}
 
 
 # ---------- renderer ----------------------------------------------------------------------------
 
-def render_ops(ops, fid, heap=False):
+def render_ops(ops, fid, heap=False, launch_text=None):
     out = []
     for op in ops:
+        if op[0] == "spawn":
+            out.append("%s print('L', %d, %d);" % (launch_text[op[1]], fid, op[1] + 1))
+            continue
         if heap and op[0] in ("send", "send_closed", "gsend"):
             op = [op[0], op[1], "'v${%d}'" % op[2], op[2]]
         elif op[0] in ("send", "send_closed", "gsend"):
@@ -193,38 +207,40 @@ def render(ir):
     nf = len(scripts)
     lines.append("let done = chan(%d);" % max(1, nf))
     params = ", ".join("c%d" % i for i in range(len(caps)))
-    launches = []
+    launches = {}
+    definitions = {}
+    spawned = ir.get("spawned") or {}
+    for f in range(len(scripts)):
+        variant = ir["variants"][f] if f < len(ir["variants"]) else "fn"
+        fid = f + 1
+        if variant in ("fn", "lambda"):
+            launches[f] = "launch fib%d(%s, done, %d);" % (f, params, tag_of(fid))
+        elif variant == "method":
+            launches[f] = "launch W%d(%d).run(%s, done);" % (f, tag_of(fid), params)
+        else:
+            launches[f] = "launch mk%d(%s, done, %d)();" % (f, params, tag_of(fid))
     for f, ops in enumerate(scripts):
         variant = ir["variants"][f] if f < len(ir["variants"]) else "fn"
         fid = f + 1
-        inner = render_ops(ops, fid, ir.get("heap"))
+        inner = render_ops(ops, fid, ir.get("heap"), launches)
         if f in ir.get("callback_fibers", []):
             # outside the verdict zone (pinned known finding): the fiber's operations run inside a native callback
             inner = ["[0].iter().each(|x| {"] + inner + ["});"]
         body = ["  " + text for text in inner] + ["  print('D', %d, tag); done <- %d;" % (fid, fid)]
         if variant == "fn":
-            lines.append("fn fib%d(%s, done, tag) {" % (f, params))
-            lines += body
-            lines.append("}")
-            launches.append("launch fib%d(%s, done, %d);" % (f, params, tag_of(fid)))
+            definitions[f] = ["fn fib%d(%s, done, tag) {" % (f, params)] + body + ["}"]
         elif variant == "lambda":
-            lines.append("let fib%d = |%s, done, tag| {" % (f, params))
-            lines += body
-            lines.append("};")
-            launches.append("launch fib%d(%s, done, %d);" % (f, params, tag_of(fid)))
+            definitions[f] = ["let fib%d = |%s, done, tag| {" % (f, params)] + body + ["};"]
         elif variant == "method":
-            lines.append("class W%d { init(tag) { self.tag = tag; } run(%s, done) { let tag = self.tag;" % (f, params))
-            lines += body
-            lines.append("} }")
-            launches.append("launch W%d(%d).run(%s, done);" % (f, tag_of(fid), params))
+            definitions[f] = ["class W%d { init(tag) { self.tag = tag; } run(%s, done) { let tag = self.tag;" % (f, params)] + body + ["} }"]
         else:
             # closure capturing its channels and tag through an enclosing function scope
-            lines.append("fn mk%d(%s, done, tag) { || {" % (f, params))
-            lines += body
-            lines.append("} }")
-            launches.append("launch mk%d(%s, done, %d)();" % (f, params, tag_of(fid)))
-    lines += launches
-    lines += render_ops(main, 0, ir.get("heap"))
+            definitions[f] = ["fn mk%d(%s, done, tag) { || {" % (f, params)] + body + ["} }"]
+    # a fiber is only ever spawned by a fiber with a smaller index: define in reverse so every launch target exists
+    for f in reversed(range(len(scripts))):
+        lines += definitions[f]
+    lines += [launches[f] for f in range(len(scripts)) if str(f) not in spawned]
+    lines += render_ops(main, 0, ir.get("heap"), launches)
     if join:
         lines.append("for i in %d.times() { print('J', <- done); }" % nf)
     lines.append("print('END', %s);" % ", ".join("c%d.len()" % i for i in range(len(caps))))
@@ -252,7 +268,10 @@ def explore(ir, cap_states=MODEL_STATE_CAP):
     sync = {i: (c == 0) for i, c in enumerate(caps)}
     sync["done"] = False
     ci = {c: i for i, c in enumerate(chans)}
-    init = (tuple(0 for _ in progs), tuple(0 for _ in progs), tuple(() for _ in chans), tuple(False for _ in chans))
+    spawned = ir.get("spawned") or {}
+    # phase 3: not launched yet
+    init = (tuple(0 for _ in progs), tuple(3 if str(f - 1) in spawned else 0 for f in range(len(progs))),
+            tuple(() for _ in chans), tuple(False for _ in chans))
     seen = set()
     outcomes = set()
     stack = [init]
@@ -285,6 +304,8 @@ def explore(ir, cap_states=MODEL_STATE_CAP):
                     c2[ncl] = True
                 return (tuple(p2), tuple(h2), tuple(q2), tuple(c2))
 
+            if ph[f] == 3:
+                continue
             if ph[f] == 1:
                 op = prog[pc]
                 k = ci[op[1]]
@@ -292,7 +313,12 @@ def explore(ir, cap_states=MODEL_STATE_CAP):
                     succ.append(upd(npc=pc + 1, nph=0))
                 continue
             op = prog[pc]
-            if op[0] == "send":
+            if op[0] == "spawn":
+                p2, h2 = list(pcs), list(ph)
+                p2[f] = pc + 1
+                h2[op[1] + 1] = 0
+                succ.append((tuple(p2), tuple(h2), qs, closed))
+            elif op[0] == "send":
                 k = ci[op[1]]
                 if closed[k]:
                     outcomes.add("error")
@@ -350,7 +376,7 @@ def determinate(ir):
     readers = collections.defaultdict(set)
     for f, script in enumerate([ir["main"]] + ir["scripts"]):
         for op in script:
-            if op[0] in ("close", "drain", "send_closed", "gsend"):
+            if op[0] in ("close", "drain", "send_closed", "gsend", "spawn"):
                 return False
             if op[0] == "send":
                 writers[op[1]].add(f)
@@ -530,6 +556,8 @@ def signature(stdout):
             parts.append("%s%s.%s%s" % (p[0], p[1], p[2], "n" if (len(p) > 3 and p[3] == "nil") else ""))
         elif p[0] in ("X", "E", "N", "D", "J"):
             parts.append("%s%s" % (p[0], p[1]))
+        elif p[0] == "L":
+            parts.append("L%s>%s" % (p[1], p[2]))
     return " ".join(parts)
 
 
@@ -537,18 +565,29 @@ def signature(stdout):
 
 def shrink(ir):
     """Smaller networks: drop a fiber, drop one operation, turn the join off."""
+    if ir.get("spawned"):
+        # launch everything from main up front
+        candidate = copy.deepcopy(ir)
+        candidate["spawned"] = {}
+        candidate["main"] = [op for op in candidate["main"] if op[0] != "spawn"]
+        candidate["scripts"] = [[op for op in script if op[0] != "spawn"] for script in candidate["scripts"]]
+        yield candidate
     for f in range(len(ir["scripts"])):
-        if len(ir["scripts"]) > 1:
+        if len(ir["scripts"]) > 1 and not ir.get("spawned"):
             candidate = copy.deepcopy(ir)
             del candidate["scripts"][f]
             del candidate["variants"][f]
             yield candidate
     for f in range(len(ir["scripts"])):
         for i in range(len(ir["scripts"][f])):
+            if ir["scripts"][f][i][0] == "spawn":
+                continue
             candidate = copy.deepcopy(ir)
             del candidate["scripts"][f][i]
             yield candidate
     for i in range(len(ir["main"])):
+        if ir["main"][i][0] == "spawn":
+            continue
         candidate = copy.deepcopy(ir)
         del candidate["main"][i]
         yield candidate
